@@ -503,6 +503,24 @@ func (pc *pathCtx) ex(v ssa.Value, depth int) poly {
 		if x.Op == token.SUB {
 			return polyMul(pc.ex(x.X, depth+1), poly{"": -1})
 		}
+		if x.Op == token.MUL {
+			// a scalar kept in a local variable or in a field of a local struct (`factors.runoffRate = q.Get(idx)`):
+			// the value stored last before the load, when that is one value on every way in
+			switch a := x.X.(type) {
+			case *ssa.Alloc:
+				if allocIsSimpleCell(a) {
+					if vs := reachingStores(a, x); len(vs) == 1 && vs[0] != nil {
+						return pc.ex(vs[0], depth+1)
+					}
+				}
+			case *ssa.FieldAddr:
+				if base, ok := a.X.(*ssa.Alloc); ok {
+					if vs, ok := reachingFieldStores(base, a.Field, x, 0); ok && len(vs) == 1 && vs[0] != nil {
+						return pc.ex(vs[0], depth+1)
+					}
+				}
+			}
+		}
 	case *ssa.BinOp:
 		switch x.Op {
 		case token.ADD:
